@@ -29,7 +29,8 @@ def history_ops(case, observe=("obs",)):
             mop = op("g.add", step[1])
         elif kind == "rm":
             mop = op("g.rm", step[1])
-        elif kind == "rename" and not str(step[1]).startswith("@") and step[2] != "*":
+        elif kind == "rename" and not str(step[1]).startswith("@") and step[2] not in ("*", "") and \
+                not any(c in step[2] for c in " ,\t\n") and step[1] not in ("*", ""):
             mop = op("g.rename", step[1], step[2])
         else:
             break
